@@ -1,4 +1,4 @@
-import SciVerif.Lemmas.C19q
+import SciVerif.Lemmas.C19r
 
 /-!
 # C19 — Exported configuration files carry the same values as the environment
@@ -351,6 +351,78 @@ example : let data : List Param := [
     backslash) and read by Bash as one double-quoted word, is unchanged -/
 theorem C19_bash_string_roundtrip (v : Str) : bashWordValue (bashScalar (.s v)) = some v :=
   bashWordValue_scalar v
+
+/-! ## DIP text -/
+
+/-- over the regenerated tables: every type the live DIP parser accepts is exported by `ExportConfig.parse`
+    under a keyword that the reader maps back to exactly that (kind, precision) -/
+theorem C19_types_dip : ∀ d ∈ Gen.dipTypes, ∃ t, lookupType bDip d.1 d.2 = some t ∧ dipKind t = some d := by
+  intro d hd
+  obtain ⟨t, h1, h2, _⟩ := dipKind_lookup d hd
+  exact ⟨t, h1, h2⟩
+
+/-- `_parse_dip_array` text (`[[1,2],[3,4]]`, elements joined by a bare comma) of ANY nested boolean, integer
+    or float value (every rank and size), read as JSON nested lists and interpreted at its kind, is the value -/
+theorem C19_dip_array_roundtrip (k : Kind) (hk : k ≠ Kind.str) (v : Val) (hv : ValOK k v) :
+    (parseInit .backslash '[' ']' (dipArray v)).bind (interp .backslash k (cs!"true") (cs!"false")) = some v :=
+  dipArray_roundtrip k hk v hv
+
+/-- a scalar string value as `_parse_dip_scalar` writes it (`'` → `\\'`, `"` → `\\"`, in quotes), read the way DIP
+    reads a quoted value (`\\"`, `\\'` are quote characters, any other backslash is literal, the first other `"`
+    closes): EVERY text that does not end in a backslash comes back unchanged, with nothing left over.
+    (A value ending in a backslash does not: known finding `dip:string-trailing-backslash`.) -/
+theorem C19_dip_string_roundtrip (v : Str) (h : endsBS v = false) :
+    ∃ body, dipScalar false (.s v) = '"' :: body ∧ dipStrGo false body = some (v, []) :=
+  ⟨_, dipScalar_str v, (dipStrGo_esc v h).1⟩
+
+example : endsBS (cs!"he said \"hi\", it's C:\\dir # x = \\\"y") = false := by decide
+
+/-- **DIP text** (`ParamOKDip` : a DIP name `[a-zA-Z0-9_.-]+`, a type the live parser accepts, and EITHER a boolean /
+    integer / unsigned / float node — scalar or rectangular array of any rank without empty levels, no unit or a
+    unit the parser reads as one — OR a scalar string node whose text has no newline, no `$` and does not end in a
+    backslash): for every list of such parameters, reading the whole exported text — split into lines; per line
+    name, type keyword, `[dims]`, ` = `, value (token or quoted text), unit — with the model of the DIP node parser
+    gives back exactly the parameters in order: name, kind, precision, shape (declared dimensions = actual
+    shape), value, unit.
+    PARTIAL, what is missing: (1) arrays of strings (`'[…]'`, JSON with `\\uXXXX` escapes) are not in the reader
+    model (`none`); (2) string texts containing `$` are excluded because `DIP._determine_node` decodes its own
+    place-holders `$@00` / `$@01` / `$@02` also when they occur in a value (reader: `none`); (3) texts ending in
+    a backslash are the known finding `dip:string-trailing-backslash`.  These stay covered by the correspondence
+    with the real parser only. -/
+theorem C19_roundtrip_dip_partial (data : List Param) (hok : ∀ p ∈ data, ParamOKDip p) :
+    (exportDip data).bind readDip = some (expectedDip data) :=
+  readDip_exportDip data hok
+
+/-- one exported line -/
+theorem C19_roundtrip_dip_line_partial (p : Param) (h : ParamOKDip p) :
+    (lineDip p).bind readDipLine = some { p with tags := [] } :=
+  readDipLine_lineDip p h
+
+/-- the hypotheses are satisfiable by a non-trivial environment (a 2x2 integer matrix with a unit, a boolean,
+    a float with a compound unit, a rank-3 unsigned array, a string with quotes, blanks, `#`, `=` and
+    backslashes), and the text is what the exporter writes -/
+example : let data : List Param := [
+      ⟨cs!"box.m", .int, 32, .arr [.arr [.leaf (.i 1), .leaf (.i (-2))], .arr [.leaf (.i 3), .leaf (.i 4)]], some (cs!"cm"), [cs!"t"]⟩,
+      ⟨cs!"sim.flag", .bool, 0, .leaf (.b true), none, []⟩,
+      ⟨cs!"v-0", .float, 64, .leaf (.f (cs!"1e-05")), some (cs!"m/s2"), []⟩,
+      ⟨cs!"t", .uint, 64, .arr [.arr [.arr [.leaf (.i 7)], .arr [.leaf (.i 8)]]], none, []⟩,
+      ⟨cs!"s", .str, 0, .leaf (.s (cs!"a \"b\" it's # x = C:\\d")), none, []⟩]
+    (∀ p ∈ data, ParamOKDip p) ∧
+      exportDip data = some (cs!"box.m int[2,2] = [[1,-2],[3,4]] cm\nsim.flag bool = true\nv-0 float = 1e-05 m/s2\nt uint64[1,2,1] = [[[7],[8]]]\ns str = \"a \\\"b\\\" it\\'s # x = C:\\d\"") ∧
+      (exportDip data).bind readDip = some (expectedDip data) := by
+  intro data
+  have hok : ∀ p ∈ data, ParamOKDip p := ?_
+  · exact ⟨hok, by decide +kernel, C19_roundtrip_dip_partial data hok⟩
+  intro p hp
+  simp only [data, List.mem_cons, List.mem_nil_iff, or_false] at hp
+  rcases hp with rfl | rfl | rfl | rfl | rfl
+  · exact Or.inl ⟨by decide, by decide, by decide, by decide, by simp [ValOK, ValsOK, ScalarOK], ⟨[2, 2], by decide, by decide⟩,
+      ⟨by decide, _, _, rfl, by decide, by decide, by decide, by decide⟩⟩
+  · exact Or.inl ⟨by decide, by decide, by decide, by decide, by simp [ValOK, ScalarOK], ⟨[], by decide, by decide⟩, trivial⟩
+  · exact Or.inl ⟨by decide, by decide, by decide, by decide, by simp [ValOK, ScalarOK]; decide, ⟨[], by decide, by decide⟩,
+      ⟨by decide, _, _, rfl, by decide, by decide, by decide, by decide⟩⟩
+  · exact Or.inl ⟨by decide, by decide, by decide, by decide, by simp [ValOK, ValsOK, ScalarOK], ⟨[1, 2, 1], by decide, by decide⟩, trivial⟩
+  · exact Or.inr ⟨by decide, by decide, by decide, rfl, rfl, _, rfl, by decide, by decide, by decide⟩
 
 /-! ## selection and renaming -/
 
